@@ -771,7 +771,48 @@ func canonSpec(s *SpecObs) interface{} {
 	for _, h := range s.C.Res.HP {
 		hp[h.Size] = h.Limit
 	}
-	return []interface{}{s.C.Ann, env, mounts, devs, s.C.Args, s.C.Hooks, s.C.Rlimits, s.CDI, s.C.Res.Scal, hp, s.C.Res.Uni, s.C.Cgroups, s.C.Oom}
+	return normEmpty([]interface{}{s.C.Ann, env, mounts, devs, s.C.Args, s.C.Hooks, s.C.Rlimits, s.CDI, s.C.Res.Scal, hp, s.C.Res.Uni, s.C.Cgroups, s.C.Oom})
+}
+
+// normEmpty: the projection is compared as VALUES — a nil list and an empty list (the generator leaves one or
+// the other depending on whether a section of the spec was ever touched) are the same list.  Through JSON:
+// null, [] and {} are dropped from objects and replaced by nil elsewhere; pointers are compared by content.
+func normEmpty(v interface{}) interface{} {
+	b, err := json.Marshal(v)
+	if err != nil {
+		return v
+	}
+	var x interface{}
+	if err := json.Unmarshal(b, &x); err != nil {
+		return v
+	}
+	var walk func(interface{}) interface{}
+	walk = func(x interface{}) interface{} {
+		switch t := x.(type) {
+		case []interface{}:
+			if len(t) == 0 {
+				return nil
+			}
+			for i := range t {
+				t[i] = walk(t[i])
+			}
+			return t
+		case map[string]interface{}:
+			for k, e := range t {
+				if w := walk(e); w == nil {
+					delete(t, k)
+				} else {
+					t[k] = w
+				}
+			}
+			if len(t) == 0 {
+				return nil
+			}
+			return t
+		}
+		return x
+	}
+	return walk(x)
 }
 
 func loadCorpus() ([]*Case, error) {
